@@ -81,7 +81,13 @@ def _build(d):
         nrows = d.choice([26, 27, 100, 255, 256, 300])
     if k in (0, 1, 2):
         ncrit = 1 if k == 0 else d.int(1, 3)
-        cols = [[_cell(d) for _ in range(nrows)] for _ in range(ncrit)]
+        if nrows > 40:
+            # long columns are tiled from a drawn pattern of 11 cells (the
+            # byte budget of a case pays for ~50 cells)
+            pats = [[_cell(d) for _ in range(11)] for _ in range(ncrit)]
+            cols = [[p[i % 11] for i in range(nrows)] for p in pats]
+        else:
+            cols = [[_cell(d) for _ in range(nrows)] for _ in range(ncrit)]
         crits = [_crit(d, c) for c in cols]
         for c, cr in zip(cols, crits):
             # BLANK cells: only under criteria for which the statement
@@ -96,7 +102,12 @@ def _build(d):
         return {'k': 'COUNTIF' if k == 0 else 'COUNTIFS', 'cols': cols,
                 'crits': crits, 'orient': d.choice(['c', 'c', 'r'])}
     if k == 3:
-        col = [_cell(d) for _ in range(nrows)]
+        col = [_cell(d) for _ in range(min(nrows, 11))]
+        col = [col[i % len(col)] for i in range(nrows)]
+        if nrows > 11 and d.pick(2):
+            # a key that only occurs far down
+            col[d.choice([nrows - 1, nrows // 2, 11])] = d.choice(
+                ['needle', 777.5])
         key = val(d.choice(col) if d.pick(4) else _cell(d))
         if isinstance(key, str) and d.pick(3) == 0:
             key = key.swapcase()
